@@ -806,7 +806,11 @@ def _rendered_text_sites(repo_root):
 @register("C08")
 def c08_super_safe(repo_root, tier):
     """`block.super` reproduces the parent's definition - also with auto-escape on, where the parent's rendered text must not be escaped again."""
-    return {"obligations": [o for o in _rendered_text_sites(repo_root) if "BlockDrop" in o["oid"] or ".count" in o["oid"]], "samples": [], "trusted": [], "functions": [], "assumptions": []}
+    obs = [o for o in _rendered_text_sites(repo_root) if "BlockDrop" in o["oid"] or ".count" in o["oid"]]
+    # an `extends` (or block) node nested in a control-flow block or a {% liquid %} tag is not blank: a blank flag there makes the
+    # enclosing block render the whole chain into a discarding buffer
+    obs += [o for o in c18_sites(repo_root, tier)["obligations"] if "extends_tag" in o["oid"] and "blank" in o["oid"]]
+    return {"obligations": obs, "samples": [], "trusted": [], "functions": [], "assumptions": []}
 
 
 @register("C04")
@@ -1209,6 +1213,28 @@ def c18_sites(repo_root, tier):
                 for call in _calls(fn):
                     if isinstance(call.func, ast.Attribute) and call.func.attr == "write" and ast.unparse(call.func.value) in ("buffer", "buf", "_buffer"):
                         writes = True
+                    # ... or hands its output buffer to something that is not one of its own child nodes (a loaded template, a
+                    # macro's block, a parent's block): what that writes is not covered by the children's blank flags either
+                    if isinstance(call.func, ast.Attribute) and call.func.attr.startswith("render") \
+                            and any(isinstance(a, ast.Name) and a.id == "buffer" for a in list(call.args) + [k.value for k in call.keywords]):
+                        own = {"self"}      # names that hold the node itself or (elements of) its own fields
+                        for _ in range(3):
+                            for x in ast.walk(fn):
+                                tv = None
+                                if isinstance(x, ast.Assign) and len(x.targets) == 1:
+                                    tv = (x.targets[0], x.value)
+                                elif isinstance(x, (ast.For, ast.AsyncFor)):
+                                    tv = (x.target, x.iter)
+                                elif isinstance(x, ast.comprehension):
+                                    tv = (x.target, x.iter)
+                                if tv and any(isinstance(y, ast.Name) and y.id in own for y in ast.walk(tv[1])) \
+                                        and not any(isinstance(y, ast.Call) for y in ast.walk(tv[1])):
+                                    own |= {y.id for y in ast.walk(tv[0]) if isinstance(y, ast.Name)}
+                        root = call.func.value
+                        while isinstance(root, (ast.Attribute, ast.Subscript)):
+                            root = root.value
+                        if not (isinstance(root, ast.Name) and root.id in own):
+                            writes = True
             if not writes:
                 continue
             init = next((st for st in c.body if isinstance(st, ast.FunctionDef) and st.name == "__init__"), None)
@@ -1596,6 +1622,18 @@ def c12_sites(repo_root, tier):
                 _ob(obs, f"{nr[1].name}:{nc.name}.__str__/site.identifier-quoted.{fld}", okq,
                     f"self.{fld} (a word or a quoted string in the source) is printed with as_source()" if okq else f"self.{fld} may have been written as a quoted string but is printed bare")
     _ob(obs, "liquid2/site.identifier-fields.count", n_ident >= 8, f"{n_ident} identifier fields found")
+    # ... and the other direction: a module whose nodes print names through as_source() (so possibly quoted) reads every name
+    # token back with parse_string_or_identifier - a bare-word-only parse_identifier() rejects what __str__ wrote (endblock 'a b')
+    for m in repo.all_modules():
+        if ".tags." not in m.name:
+            continue
+        src_has_as_source = any(isinstance(c, ast.Call) and isinstance(c.func, ast.Attribute) and c.func.attr == "as_source" for c in ast.walk(m.tree))
+        if not src_has_as_source:
+            continue
+        bare = [c.lineno for c in ast.walk(m.tree) if isinstance(c, ast.Call) and isinstance(c.func, ast.Name) and c.func.id == "parse_identifier"]
+        _ob(obs, f"{m.name}/site.quoted-names-read-back", not bare,
+            "names that are printed through as_source() are parsed with parse_string_or_identifier everywhere in the module" if not bare
+            else f"parse_identifier() (bare words only) at line {bare[0]} in a module that prints names through as_source(): a quoted name written by __str__ is rejected on reparse")
     fn = em.find("Identifier.as_source") if em else None
     ok = fn is not None and "if is_token_type(self.token, TokenType.WORD):\n    return str(self)" in ast.unparse(fn).replace("\n        ", "\n    ")
     _ob(obs, "liquid2.builtin.expressions:Identifier.as_source/site.bare-only-if-word", ok, "an identifier is printed bare only if it was lexed as a WORD token; otherwise quoted with backslash and quote escaped")
@@ -2232,6 +2270,31 @@ def c10_scope_sites(repo_root, tier):
     generator that binds lambda parameters keeps every yield inside `with context.extend(..)`."""
     r = c07_sites(repo_root, tier)
     obs = [o for o in r["obligations"] if "scope-push-pop" in o["oid"] or "generator-scope" in o["oid"] or "scoped-with" in o["oid"]]
+    return {"obligations": obs, "samples": [], "trusted": [], "functions": [], "assumptions": []}
+
+
+@register("C10")
+def c10_message_vars(repo_root, tier):
+    """The keyword arguments of a translation filter are its innermost, block-scoped bindings: the message variables are looked
+    up while those arguments are pushed as a scope (`with context.extend(namespace=message_vars)`), so they win over every outer layer."""
+    repo = Repo(repo_root)
+    obs = []
+    m = repo.module("liquid2.builtin.filters.translate")
+    fn = m.find("BaseTranslateFilter.format_message") if m else None
+    ok = False
+    why = "format_message not found"
+    if fn is not None:
+        params = [a.arg for a in fn.args.args]
+        resolves = [c for c in _calls(fn) if isinstance(c.func, ast.Attribute) and c.func.attr == "resolve" and ast.unparse(c.func.value) == "context"]
+        withs = [w for w in ast.walk(fn) if isinstance(w, ast.With) and any(
+            isinstance(i.context_expr, ast.Call) and ast.unparse(i.context_expr.func) == "context.extend"
+            and any(isinstance(a, ast.Name) and a.id in params for a in list(i.context_expr.args) + [k.value for k in i.context_expr.keywords]) for i in w.items)]
+        inside = [c for c in resolves if any(any(x is c for st in w.body for x in ast.walk(st)) for w in withs)]
+        plain = all(len(c.args) == 1 and not c.keywords for c in resolves)
+        ok = bool(resolves) and len(inside) == len(resolves) and plain
+        why = "message variables are resolved outside `with context.extend(<message vars>)` or with a fallback default: an outer binding of the same name wins over the filter's keyword argument"
+    _ob(obs, "liquid2.builtin.filters.translate:BaseTranslateFilter.format_message/site.message-vars-innermost", ok,
+        "every message variable is resolved by context.resolve(name) inside `with context.extend(namespace=message_vars)`" if ok else why)
     return {"obligations": obs, "samples": [], "trusted": [], "functions": [], "assumptions": []}
 
 
